@@ -280,6 +280,14 @@ func genOverride(t *rapid.T, ty desc.T, mg *msgGen) map[string]string {
 			if rapid.IntRange(0, 3).Draw(t, "ovReq") == 0 {
 				rm[f.Name] = "required," + rm[f.Name]
 			}
+			if rapid.IntRange(0, 3).Draw(t, "ovQuoted") == 0 {
+				// a quoted option list: the rule text takes the splitter's quote-aware path
+				if rapid.Bool().Draw(t, "ovQuotedLast") {
+					rm[f.Name] += ",in=('zz,q'/7/ab)" + mg.next(t)
+				} else {
+					rm[f.Name] = "in=('zz,q'/7/ab)" + mg.next(t) + "," + rm[f.Name]
+				}
+			}
 		}
 	}
 	return rm
@@ -318,6 +326,12 @@ func genScalarCall(t *rapid.T, mg *msgGen) *ScalarCase {
 			}
 			c.RePats[r] = "^[a-c]+$"
 		}
+	}
+	// a function defined for this call only, named like a built-in, like a global function or freshly
+	if rapid.IntRange(0, 2).Draw(t, "sCallFn") == 0 {
+		name := rapid.SampledFrom([]string{"phone", "cfn1", "shadowed", "email", "int"}).Draw(t, "sFnName")
+		c.Rules = append(c.Rules, name)
+		c.CallFns = []string{name}
 	}
 	cars := []string{"var", "map", "listmap", "tag", "rm"}
 	if kind == "string" && urlSafe(c.Val.S) && c.Val.SB == nil {
